@@ -28,7 +28,8 @@ THEOREMS = ["C09_porcelain_roundtrip", "C09_same_commit", "C09_split_preserves_l
             "C09_attribution_reverse_scan", "C09_later_entry_wins", "C09_not_listed_is_human",
             "C09_overlay_spec", "C09_path_independent",
             "C09_json_expand", "C09_json_restrict", "C09_json_output_expands", "C09_json_default_agree",
-            "C09_ranges_validated", "C09_empty_file_rejected", "C09_single_number_range", "C09_plus_count_range",
+            "C09_ranges_validated", "C09_empty_file_rejected", "C09_request_sized_by_blamed_revision",
+            "C09_default_range_whole_revision", "C09_single_number_range", "C09_plus_count_range",
             "C09_nonvacuous", "C09_rename_keeps_attribution", "C09_nonvacuous_json", "C09_nonvacuous_split"]
 CLAIM = {
     "text": "Machine-checked proof (Coq 8.16.1, closed) over an executable Gallina model of the blame pipeline: the "
@@ -72,6 +73,8 @@ ASSUMPTIONS = [
 
 K2 = "C09-K2 git-ai blame on an empty file exits 1 (`Invalid line range: 1:0`) where git blame exits 0"
 
+K5 = ("C09-K5 --porcelain/--line-porcelain/--incremental exit 1 when a blamed line of the working copy is not committed yet "
+      "(commit summary of the all-zero id is looked up with cat-file)")
 HEXD = "0123456789abcdef"
 FAKE_GIT = """#!/bin/sh
 # C09 harness wrapper: serve a prepared text for `git blame`, run the real git for everything else
@@ -551,10 +554,15 @@ def rfc3339(ts):
     return datetime.datetime.fromtimestamp(ts, datetime.timezone.utc).strftime("%Y-%m-%dT%H:%M:%SZ")
 
 
-def compare_one(sim, notes, path, opts, stats):
-    """opts: list of CLI options accepted by both git and git-ai.  Returns (failures, known, porcelain_text, exp)."""
+ALL_FORMATS = ("json", "default", "porcelain")
+
+
+def compare_one(sim, notes, path, opts, stats, formats=ALL_FORMATS, rev=None):
+    """opts: list of CLI options accepted by both git and git-ai.  `rev`: the revision the chosen formats blame when
+    the work tree is dirty (effective_blame_options: --json pins HEAD; every other format blames the working copy,
+    rev=None) — the reference is git blame of THAT content.  Returns (failures, known, porcelain_text, exp)."""
     fails, known = [], set()
-    rc, out, err = sim.realgit("blame", "--line-porcelain", *opts, "--", path)
+    rc, out, err = sim.realgit("blame", "--line-porcelain", *opts, *([rev] if rev else []), "--", path)
     if rc != 0:
         return [{"what": "reference git blame failed", "opts": opts, "path": path, "err": err[-300:]}], known, None, None
     entries = read_line_porcelain(out)
@@ -577,9 +585,11 @@ def compare_one(sim, notes, path, opts, stats):
 
     pathArg = path
     # ---- --json
-    rc, jout, jerr = sim.gitai("blame", "--json", *opts, pathArg)
+    rc, jout, jerr = sim.gitai("blame", "--json", *opts, pathArg) if "json" in formats else (None, "", "")
     got_json = None
-    if rc != 0:
+    if rc is None:
+        pass
+    elif rc != 0:
         classify(set(), "git-ai blame --json failed", {"err": jerr[-300:]})
     else:
         try:
@@ -600,8 +610,11 @@ def compare_one(sim, notes, path, opts, stats):
         except Exception as e:  # noqa
             fails.append({"what": "--json output is not JSON", "path": path, "opts": opts, "out": jout[:300]})
     # ---- default format
-    rc, dout, derr = sim.gitai("blame", *opts, pathArg, env_extra={"GIT_PAGER": "cat", "PAGER": "cat"})
-    if rc != 0:
+    rc, dout, derr = (sim.gitai("blame", *opts, pathArg, env_extra={"GIT_PAGER": "cat", "PAGER": "cat"})
+                      if "default" in formats else (None, "", ""))
+    if rc is None:
+        pass
+    elif rc != 0:
         classify(set(), "git-ai blame (default format) failed", {"err": derr[-300:]})
     else:
         d = read_default(dout)
@@ -644,13 +657,16 @@ def compare_one(sim, notes, path, opts, stats):
                 if dis:
                     classify(dis, "default format and --json disagree", {"lines": sorted(dis)[:20]})
     # ---- porcelain-style formats: same commit per line as git's own output for the same flag
-    for flag in ("--porcelain", "--line-porcelain", "--incremental"):
-        rc1, gout, _ = sim.realgit("blame", flag, *opts, "--", path)
+    for flag in (("--porcelain", "--line-porcelain", "--incremental") if "porcelain" in formats else ()):
+        rc1, gout, _ = sim.realgit("blame", flag, *opts, *([rev] if rev else []), "--", path)
         rc2, aout, aerr = sim.gitai("blame", flag, *opts, pathArg)
         if rc1 != 0:
             continue
         if rc2 != 0:
-            classify(set(), f"git-ai blame {flag} failed", {"err": aerr[-300:]})
+            if any(set(x) == {"0"} for x in exp_sha.values()) and "cat-file -t 0000000000000000000000000000000000000000" in aerr:
+                known.add(K5)      # known class: a porcelain-style format and some blamed line is not committed yet
+            else:
+                classify(set(), f"git-ai blame {flag} failed", {"err": aerr[-300:]})
             continue
         g, a = read_commit_per_line(gout), read_commit_per_line(aout)
         if g != exp_sha:
@@ -877,6 +893,47 @@ def scenario(args):
                 f, k = lib_compare(sim, notes, home, p, mo, stats)
                 fails += f
                 known |= k
+        # ---- DIRTY work tree: uncommitted edits that make a file shorter / longer / different than HEAD.
+        # --json blames HEAD (effective_blame_options), sized by HEAD's content; the other formats blame the working copy.
+        for p, n in nonempty[:2]:
+            orig = sim.read(p)
+            ls = orig.split("\n")
+            if ls and ls[-1] == "":
+                ls = ls[:-1]
+            mode = r.weighted([(3, "shorter"), (2, "longer"), (2, "different")]) if n >= 2 else "longer"
+            if mode == "shorter":
+                k = r.range(1, n - 1)
+                new = ls[:n - k] if r.chance(2, 3) else ls[k:]
+            elif mode == "longer":
+                pos = r.range(0, n)
+                new = ls[:pos] + [f"uncommitted {i}" for i in range(r.range(1, 3))] + ls[pos:]
+            else:
+                new = list(ls)
+                for i in range(r.range(1, 2)):
+                    new[r.below(n)] = f"changed on disk {i}"
+            sim.write(p, "".join(l + "\n" for l in new))
+            wn = len(new)
+            a = r.range(1, n)
+            jsets = [[], ["-L", str(a)], ["-L", f"{r.range(1, n)},{n}"], ["-L", f"{a},{r.range(a, n)}"]]
+            for o in ([jsets[0]] + [r.pick(jsets[1:])] + ([jsets[2]] if mode == "shorter" else [])):
+                f, k_, _, _ = compare_one(sim, notes, p, o, stats, formats=("json",), rev="HEAD")
+                stats["optsets"]["dirty-" + mode + " --json@HEAD"] = stats["optsets"].get("dirty-" + mode + " --json@HEAD", 0) + 1
+                stats["comparisons"] += 1
+                for x in f:
+                    x["work_tree"] = f"dirty ({mode}: {n} lines at HEAD, {wn} on disk)"
+                fails += f
+                known |= k_
+            b = r.range(1, wn)
+            wsets = [[], ["-L", str(b)], ["-L", f"{b},{r.range(b, wn)}"]]
+            for o in [wsets[0], r.pick(wsets[1:])]:
+                f, k_, _, _ = compare_one(sim, notes, p, o, stats, formats=("default", "porcelain"), rev=None)
+                stats["optsets"]["dirty-" + mode + " worktree"] = stats["optsets"].get("dirty-" + mode + " worktree", 0) + 1
+                stats["comparisons"] += 1
+                for x in f:
+                    x["work_tree"] = f"dirty ({mode}: {n} lines at HEAD, {wn} on disk)"
+                fails += f
+                known |= k_
+            sim.write(p, orig)
         # an older revision: through the library (newest_commit) and by checking it out
         if len(shas) >= 3:
             old = r.pick(shas[1:-1])
@@ -1246,7 +1303,7 @@ def run(ctx):
         ora_f = [f for f in r_["fails"] if not f["what"].startswith("TIE")]
         for f in ora_f[:3]:
             violations.append((f"history {r_['idx']} ({' '.join(r_['steps'])}): {f['what']} path={f.get('path')} opts={f.get('opts', f.get('mode'))} "
-                               f"lines={f.get('bad_lines')}",
+                               f"lines={f.get('bad_lines')} {f.get('work_tree', '')}",
                                {"scenario": r_["idx"], "failure": f, "steps": r_["steps"], "log": r_["log"]}))
         if tie_f:
             obligations.append((f"tie:real-porcelain scenario {r_['idx']}", False, json.dumps(tie_f[0])[:900]))
